@@ -11,13 +11,21 @@ import sys
 sys.path.insert(0, "/verif/lib")
 import vlib, instances
 vlib.generate_instances(instances.INSTS)
+import gen_drift, gen_extract
+for c in ("phys", "dump"):
+    import shutil, os
+    d = "/verif/harness/%s/Cargo.lock" % c
+    if not os.path.exists(d):
+        shutil.copy("/repo/Cargo.lock", d)
+gen_drift.main()
+gen_extract.main()
 for c in vlib.CRATES:
     import os
     if os.path.isdir(vlib.CRATES[c]):
         vlib.refresh_lock(c)
 PY
 rc=0
-for c in det phys bin; do
+for c in det phys; do
   [ -d harness/$c ] || continue
   echo "== native self-tests of harness/$c (oracles vs the repository's own test vectors, CRC model vs real crc32c)"
   (cd harness/$c && cargo test --offline --release --target-dir /verif/.work/$c/native 2>&1 | tail -15) || rc=1
@@ -34,7 +42,6 @@ warm() { # crate slots harness
   wait
 }
 [ -d harness/det ] && warm det ${VERIF_SLOTS_DET:-14} c06_trg_iff_0
-[ -d harness/phys ] && warm phys ${VERIF_SLOTS_PHYS:-6} c08_warm
-[ -d harness/bin ] && warm bin ${VERIF_SLOTS_BIN:-4} c20_warm
+[ -d harness/phys ] && warm phys ${VERIF_SLOTS_PHYS:-8} c08_warm
 grep -l "failed\|error: could not compile" .work/warm-*.log 2>/dev/null && rc=1
 exit $rc
